@@ -110,6 +110,7 @@ UNARY = {
     "spre": None, "spost": None, "to_super": None, "liouvillian": None, "dissipator": None,
     "evo_const": None, "evo_td": None, "permute": None, "transform": None, "contract": None,
     "sesolve_prop": None, "mesolve_dm": None, "propagator": None, "steadystate": None,
+    "to_choi": None, "to_chi": None, "to_super_rt": None,
     "trunc_neg": lambda q: q.trunc_neg() if q.isherm else q,
 }
 BINARY = {
@@ -165,6 +166,17 @@ def apply_op(name, args, rng):
         return q.transform(qutip.Qobj(np.array([[0, 1], [1, 0]], dtype=complex))) if q.dims == [[2], [2]] else q.copy()
     if name == "contract":
         return qutip.tensor(q, qutip.qeye(1)).contract() if q.isoper and not q.issuper else q.copy()
+    if name in ("to_choi", "to_chi", "to_super_rt"):
+        sq = q if q.issuper else (qutip.spre(q) if q.isoper and q.dims == [[2], [2]] else None)
+        if sq is None or sq.dims != [[[2], [2]], [[2], [2]]]:
+            return q.copy()
+        if rng.random() < 0.5:
+            sq.isherm
+        if name == "to_choi":
+            return qutip.to_choi(sq)
+        if name == "to_chi":
+            return qutip.to_chi(sq)
+        return qutip.to_super(qutip.to_choi(sq))
     if name == "sesolve_prop":
         if q.dims != [[2], [2]]:
             return q.copy()
